@@ -532,7 +532,14 @@ def stream_capacity_cases(backlogs, maxes, prefix="scap"):
 
 # ---------------------------------------------------------------- malformed requests (C17)
 
+def _unissued_tokens():
+    # well-formed tokens the server never handed out: just past the end, far past it, the largest offsets
+    return [token_of(x) for x in (1, 2, 3, 1000, 2 ** 31, 2 ** 63, 2 ** 64 - 1001, 2 ** 64 - 1)]
+
+
 def malformed_cases(seed, n, prefix="bad"):
+    global UNISSUED_TOKENS
+    UNISSUED_TOKENS = _unissued_tokens()
     rng = random.Random(seed)
     T, Sn = tname("p", "t"), sname("p", "s")
     odd_strings = ["", " ", "/", "projects/", "é", "١", "a" * 300, "projects/p/topics/" + "/" * 20,
@@ -561,9 +568,10 @@ def malformed_cases(seed, n, prefix="bad"):
                 ops.append("DS " + hx(bad))
             elif k == 6:
                 ops.append("%s %s %d %s" % (rng.choice(["LT", "LS"]), hx(rng.choice(["projects/p", bad])),
-                                            rng.choice(ints), hx(rng.choice(BAD_TOKENS + [""]))))
+                                            rng.choice(ints), hx(rng.choice(BAD_TOKENS + [""] + UNISSUED_TOKENS))))
             elif k == 7:
-                ops.append("LTS %s %d %s" % (hx(rng.choice([T, bad])), rng.choice(ints), hx(rng.choice(BAD_TOKENS + [""]))))
+                ops.append("LTS %s %d %s" % (hx(rng.choice([T, bad])), rng.choice(ints),
+                                             hx(rng.choice(BAD_TOKENS + [""] + UNISSUED_TOKENS))))
             elif k == 8:
                 ops.append("PUB %s 1 61 0" % hx(bad))
             elif k == 9:
@@ -1119,4 +1127,21 @@ def cs_cases(seed, n, prefix="cs"):
             ops += ["XT"] + ["XQ %d" % c for c in live]
         ops += ["STATS " + Sn]
         cases.append(("%s%d" % (prefix, i), ops))
+    return cases
+
+
+def big_walk_cases(n=1001, sizes=(1000, 1001, 5000, 2147483647), prefix="pgbig"):
+    """More topics / subscriptions than the largest page (1000): no page may hold more, whatever size is asked."""
+    cases = []
+    T0 = tname("p", "t0000")
+    for size in sizes:
+        ops = ["CT " + hx(tname("p", "t%04d" % i)) for i in range(n)]
+        ops += ["CS %s %s 10 ~" % (hx(sname("p", "s%04d" % i)), hx(T0)) for i in range(n)]
+        for kind, arg in (("LT", hx("projects/p")), ("LS", hx("projects/p")), ("LTS", hx(T0))):
+            tok = "-"
+            eff = min(size, 1000)
+            for k in range(3):
+                ops.append("%s %s %d %s" % (kind, arg, size, tok))
+                tok = hx(token_of((k + 1) * eff))
+        cases.append(("%s-s%d" % (prefix, size), ops))
     return cases
